@@ -588,7 +588,26 @@ def variants(ctx):
     out.append(("reent", "--enable-alloca=malloc-reentrant", None, BASE_CFLAGS, ["--enable-alloca=malloc-reentrant"]))
     out.append(("tdebug", "--enable-alloca=debug --enable-assert", None, BASE_CFLAGS, ["--enable-alloca=debug", "--enable-assert"]))
     out.append(("fat", "--enable-fat", None, BASE_CFLAGS, ["--enable-fat"]))
+    # whole per-CPU configurations (the CPU's kernels TOGETHER with its table: e.g. native addmul_2/redc_2 switch on code paths
+    # of powm.c that the generic configuration never compiles), for every CPU name whose kernel path this host can execute
+    try:
+        ks = asmkern.load(ctx.build); bad_dirs = set(k.dir for k in ks if k.funcs and not k.executable)
+    except Exception: bad_dirs = None
+    if bad_dirs is not None:
+        for name, d in CPU_BUILDS:
+            path = [d.rsplit("/", i)[0] for i in range(d.count("/"), -1, -1)] if d else []
+            path = set(["/".join(d.split("/")[:i + 1]) for i in range(len(d.split("/")))])
+            if path & bad_dirs: continue
+            out.append(("cpu-" + name, "--build=%s-pc-linux-gnu" % name, None, BASE_CFLAGS, ["--build=%s-pc-linux-gnu" % name]))
     return out
+
+CPU_BUILDS = [("k8", "k8"), ("k10", "k8/k10"), ("k102", "k8/k10/k102"), ("bulldozer", "bulldozer"), ("piledriver", "bulldozer/piledriver"),
+              ("bobcat", "bobcat"), ("core2", "core2"), ("penryn", "core2/penryn"), ("nehalem", "nehalem"), ("westmere", "nehalem/westmere"),
+              ("sandybridge", "sandybridge"), ("ivybridge", "sandybridge/ivybridge"), ("haswell", "haswell"), ("haswellavx", "haswell/avx"),
+              ("broadwell", "haswell/broadwell"), ("skylake", "skylake"), ("skylakeavx", "skylake/avx"), ("atom", "atom"), ("netburst", "netburst")]
+def cpu_table(tag):
+    d = dict(CPU_BUILDS).get(tag[4:]) if tag.startswith("cpu-") else None
+    return "mpn/x86_64/%s/gmp-mparam.h" % d if d else None
 
 def build_variant(ctx, var, jobs):
     """copy the scratch tree, substitute the table / reconfigure, make clean && make, link the standard harness -> (tree, harness)"""
@@ -710,8 +729,12 @@ def run_variant(ctx, var, jobs, cov):
                 out.append(("fat dispatch selects a kernel the CPU cannot execute: " + b, p))
         have = harness_op_names()
         thr = dict(dict(getattr(ctx, "shipped_vectors", [])).get(rel, [])) if rel else sel_vector(ctx)
+        if tag.startswith("cpu-"):
+            class C2: pass
+            c2 = C2(); c2.__dict__.update(ctx.__dict__); c2.build = tree
+            thr = sel_vector(c2); info["table"] = os.path.relpath(os.path.realpath(os.path.join(tree, "gmp-mparam.h")), os.path.realpath(tree))
         rng = random.Random("C14-var-%s-%d" % (tag, ctx.seed))
-        lines = value_lines(rng, "thorough" if rel else "quick", thr, have)
+        lines = value_lines(rng, "thorough" if rel or tag.startswith("cpu-") else "quick", thr, have)
         if not rel:        # option builds: also the kernels (fat: the dispatched ones) and the optional-kernel ops
             lines += kernel_lines(rng, "quick", have)
             probe_have = set(have)
@@ -761,7 +784,7 @@ def rebuild_stage(ctx, cov):
     vs = variants(ctx); par = 4; jobs = max(2, vlib.NPROC // par)
     if ctx.tier != "thorough":
         chg = [f for f in changed_files(ctx.build) if f.endswith("gmp-mparam.h")]
-        vs = [v for v in vs if v[2] in chg]            # quick tier: only the tuning tables whose text changed since the reference
+        vs = [v for v in vs if v[2] in chg or (cpu_table(v[0]) in chg)]     # quick tier: only the tables whose text changed since the reference (+ that CPU's whole configuration)
         if not vs:
             cov["rebuilds"] = {"skipped": "thorough tier only (one library build per shipped gmp-mparam.h and per configure option); quick tier rebuilds only tables whose text changed"}
             return []
